@@ -4,9 +4,10 @@ from ..qcheck import mk_case, run_cases, go_req
 from ..common import dec_val, run_go, canon, enc_val
 
 MODULE = "Genql.Properties.C08"
-LEAN_TARGETS = [MODULE]
+LEAN_TARGETS = [MODULE, "Genql.Properties.NestedModel"]
 THEOREMS = ["Genql.C08." + t for t in [
-    "levelElem_arr", "nested_exec", "flat_is_base_case", "nested_exec_depth", "mix_concat", "mix_concat_all"]]
+    "levelElem_arr", "nested_exec", "flat_is_base_case", "nested_exec_depth", "mix_concat", "mix_concat_all",
+    "nested_flat_levels", "nested_select_model"]]
 TRUSTED = ["sqlparser", "the `mix=>` top-level function is compared on the implementation (metamorphic) and modelled in C09"]
 RULE = ("documents with arrays of arrays of objects (ragged, empty inner arrays, depth 2-3) x WHERE + select lists with "
         "non-idempotent projections (a+1 AS a) so that a double application is visible; model correspondence, plus on the "
@@ -156,7 +157,9 @@ def explore(chk, rnd, tier):
 
 LEVEL_TEXT = ("Lean theorems about the model of exec()'s `[]any` case + CopyQuery: executing over an array of arrays returns the "
               "array of the inner executions (same nesting, any depth) and on a flat array it is the ordinary pipeline; for WHERE + "
-              "select-list queries flattening the source first returns the concatenation of the inner results. Tied to /repo by "
+              "select-list queries flattening the source first returns the concatenation of the inner results. End to end "
+              "(nested_select_model): execQuery over an array of arrays = the array of (rows.filter p).map proj per inner array, "
+              "the select list seeing that inner array's kept rows. Tied to /repo by "
               "model correspondence and two metamorphic runs on the implementation (per-inner-array, mix=>).")
 LEVEL_NOTE = "GROUP BY / ORDER BY / LIMIT over nested sources are outside the property (filter/projection queries)."
 TECHNIQUE = "Lean 4 proof (mutual structural induction over the nested value) + model correspondence + metamorphic runs"
